@@ -22,7 +22,10 @@ Next == /\ st.pc = "run"
 Spec == Init /\ [][Next]_vars /\ WF_vars(Next)
 
 TypeOK     == st.pc \in {"run", "ok", "err"}
-Bounded    == st.nlen <= Len(data)                  \* C01: name never longer than the datagram
+(* C01: a name that is produced is never longer than the datagram; while a walk that will fail is still under *)
+(* way (a pointer led back over bytes already read with another label alignment) what has been collected     *)
+(* stays below twice the datagram: memory proportional to its size                                            *)
+Bounded    == (st.pc = "ok" => st.nlen <= Len(data)) /\ st.nlen <= 2 * Len(data)
 StepBound  == st.steps <= Len(data) + 2             \* C01: work proportional to the datagram
 InsideData == st.pc = "ok" => st.ret <= Len(data)   \* cursor left inside the datagram
 AgreesWithOracle ==                                 \* a successful walk reads what RFC 1035 says is there
